@@ -1,5 +1,6 @@
 import IkeModel.GoRt
 import IkeModel.Crypto.Prims
+import IkeModel.Security.Sa
 
 /-! `hash.Hash` objects created by `hmac.New(<hash>.New, key)` as the generated code sees them: the
 hash number (0 md5, 1 sha1, 2 sha256, as in `Prims.mac`), the key and the octets written since the
@@ -21,5 +22,49 @@ def Mac.write (m : Mac) (x : Bytes) : Mac := { m with buf := m.buf ++ x }
 def Mac.reset (m : Mac) : Mac := { m with buf := [] }
 def Mac.sum (P : Prims) (m : Mac) (b : Bytes) : Bytes := b ++ P.mac m.h m.key m.buf
 def Mac.size (P : Prims) (m : Mac) : Nat := P.macLen m.h
+
+end Ike.Go
+
+namespace Ike.Go
+open Ike
+
+/-! ### `crypto/rand.Reader` as an implicit state of the functions that draw from it
+
+The state is the hand-written model's `Rand` (an octet stream served cyclically, the number of reads so far and
+the read that fails, if any — what the harness' deterministic reader does); functions that draw take it as
+parameter `rnd_` and return it first. -/
+
+/-- `rand.Read(buf)` / `io.ReadFull(rand.Reader, buf)`: the source afterwards, the buffer, the count, the error -/
+def randFill (r : Rand) (buf : Bytes) : Rand × Bytes × Nat × Err :=
+  match r.draw buf.length with
+  | (r', .ok bs) => (r', bs, buf.length, .none)
+  | (r', _) => (r', buf, 0, .other)
+
+/-! ### `crypto/aes` + `crypto/cipher` CBC: the block cipher is `P.enc` / `P.dec` under the key -/
+
+/-- `aes.NewCipher(key)`: the block object (its key) and a non-nil error for a key that is not 16, 24 or 32 octets -/
+def aesNewCipher (key : Bytes) : Bytes × Err :=
+  if key.length = 16 ∨ key.length = 24 ∨ key.length = 32 then (key, .none) else ([], .other)
+
+/-- `cipher.NewCBCEncrypter / NewCBCDecrypter(block, iv)` -/
+structure Cbc where
+  key : Bytes := []
+  iv  : Bytes := []
+  enc : Bool := true
+deriving Repr, Inhabited, DecidableEq
+
+/-- panics when the IV is not one block long -/
+def newCbc (enc : Bool) (key iv : Bytes) : Res Cbc :=
+  if iv.length = 16 then .ok ⟨key, iv, enc⟩ else .fault
+
+/-- `mode.CryptBlocks(dst, src)`: what is written to the front of `dst` (panics: input not full blocks, output
+smaller than input) -/
+def cryptBlocks (P : Prims) (m : Cbc) (dstLen : Nat) (src : Bytes) : Res Bytes :=
+  if src.length % 16 ≠ 0 ∨ dstLen < src.length then .fault
+  else .ok (if m.enc then cbcEnc (P.enc m.key) m.iv src else cbcDec (P.dec m.key) m.iv src)
+
+/-- `a % b` / `a / b` on Go ints with a divisor that is not a constant: a zero divisor panics -/
+def imod (a b : Int) : Res Int := if b = 0 then .fault else .ok (Int.tmod a b)
+def idiv (a b : Int) : Res Int := if b = 0 then .fault else .ok (Int.tdiv a b)
 
 end Ike.Go
